@@ -18,6 +18,13 @@ FLOORS = {
               "scorer_representations": 250, "baseline_with_events": 80},
     "thorough": {"distinct_nontrivial": 15000, "representations_compared": 40000},
 }
+ANCHORS = [
+    "skchange.utils.validation.data.check_data",
+    "skchange.utils.validation.data.as_2d_array",
+    "skchange.base.base_detector.BaseDetector.transform",
+    "skchange.base.base_detector.BaseDetector.update",
+    "skchange.anomaly_detectors.anomalisers.StatThresholdAnomaliser._predict",
+]
 LEVEL = "exploration"
 RULE = (
     "metamorphic matrix: baseline = float64 DataFrame with default index; every other representation "
@@ -174,7 +181,6 @@ def detector_case(ctx, r):
     n, p = A.shape
     spec = r["det"]
     name = spec["cls"]
-    ctx.case()
     ctx.stat(f"det[{name}]")
     label = f"{short(spec)} A[{n}x{p}]"
     sub = "representation"
@@ -205,6 +211,7 @@ def detector_case(ctx, r):
     if events:
         ctx.stat("baseline_with_events")
     for rep, obs in results.items():
+        ctx.case()  # one case = one (configuration, data, representation) compared with the baseline
         ctx.stat("representations_compared")
         for entry, (st, val) in obs.items():
             ref = base
@@ -248,7 +255,6 @@ def scorer_case(ctx, r):
     X = np.asarray(r["X"], dtype=np.int64)
     n, p = X.shape
     spec = r["spec"]
-    ctx.case()
     label = f"{short(spec)} X[{n}x{p}]"
     rng = np.random.default_rng(r["sub_seed"])
     k = build(spec).expected_cut_entries
@@ -273,6 +279,7 @@ def scorer_case(ctx, r):
             vals[rep] = ("exc", f"{type(ex).__name__}: {ex}"[:200])
     b = vals["baseline"]
     for rep in reps[1:]:
+        ctx.case()
         ctx.stat("scorer_representations")
         st, v = vals[rep]
         if st != b[0]:
